@@ -337,7 +337,91 @@ fn c13_dom<D: Dom>(cx: &RunCtx) {
     tok_run::<D>(cx, "E-TOK Σ_spell + rewrites", a, if quick { 4 } else { 5 }, 9, ONLY_DEFAULT, &k, Some(extra), 3000);
 }
 
+/// Whitespace in bulk: runs of 2..5000 copies of each White_Space character (the multi-byte ones push a short input
+/// past any byte-length limit long before a character-length limit), at the start, inside and at the end of short
+/// well-formed and malformed inputs, and all 25 characters mixed. The outcome must be that of the bare input.
+fn c13_ws_pumping<D: Dom>(cx: &RunCtx) {
+    if !cx.wants(D::EV.name()) {
+        return;
+    }
+    let mut st = Stats::default();
+    let at = D::default_at();
+    let bases: Vec<&str> = match D::EV {
+        Ev::I64 => vec!["1+2", "min(3,@)", "2(3)", "-3!", "7%3<<2", "1+", "(1", "2²", "gcd(12,18)"],
+        Ev::Cpx => vec!["1+2", "2i*i", "2(3)", "-3!", "pi", "1+", "(1", "2²", "sqrt(@)"],
+        _ => vec!["1+2", "min(3,@)", "2(3)", "-3!", "pi", "1+", "(1", "2²", "⌊2.5⌋"],
+    };
+    let counts: &[usize] = if cx.tier == Tier::Quick { &[2, 3, 40, 85, 86, 127, 128, 129, 250, 1000] } else { &[2, 3, 10, 40, 64, 85, 86, 100, 127, 128, 129, 200, 250, 253, 256, 1000, 5000] };
+    let mixed: String = WHITE_SPACE.iter().collect();
+    for base in bases {
+        let b = run::<D>(base, &at);
+        if matches!(b.out, Out::Panic(_) | Out::Budget(_)) {
+            continue;
+        }
+        let chars: Vec<char> = base.chars().collect();
+        let mut variants: Vec<(String, String)> = Vec::new();
+        for ws in WHITE_SPACE {
+            for &n in counts {
+                let run_: String = std::iter::repeat(ws).take(n).collect();
+                variants.push((format!("{}{}", run_, base), format!("{} x U+{:04X} in front", n, ws as u32)));
+                variants.push((format!("{}{}", base, run_), format!("{} x U+{:04X} behind", n, ws as u32)));
+                variants.push((splice(&chars, 1, 1, &run_), format!("{} x U+{:04X} after the first character", n, ws as u32)));
+                // spread over every boundary
+                let per = n / (chars.len() + 1) + 1;
+                let piece: String = std::iter::repeat(ws).take(per).collect();
+                let mut v = piece.clone();
+                for c in &chars {
+                    v.push(*c);
+                    v.push_str(&piece);
+                }
+                variants.push((v, format!("{} x U+{:04X} at every boundary", per, ws as u32)));
+            }
+        }
+        for k in [1usize, 4, 10, 40] {
+            let m = mixed.repeat(k);
+            variants.push((format!("{}{}", m, base), format!("all 25 White_Space characters x {} in front", k)));
+            variants.push((splice(&chars, 1, 1, &m), format!("all 25 White_Space characters x {} after the first character", k)));
+            variants.push((format!("{}{}", base, m), format!("all 25 White_Space characters x {} behind", k)));
+        }
+        for (v, what) in variants {
+            let r = run::<D>(&v, &at);
+            st.nodes += 1;
+            st.transitions += 1;
+            st.executions += 1;
+            st.relations += 1;
+            if r.out.ok().is_some() && b.out.ok().is_some() {
+                st.relations_both_ok += 1;
+            }
+            if matches!(r.out, Out::Panic(_) | Out::Budget(_)) {
+                st.bump("relation-skipped:panic-or-budget", 1);
+                continue;
+            }
+            if !same_out::<D>(&b.out, &r.out) {
+                let mut viol = make_violation::<D>(
+                    "E-FAM whitespace in bulk",
+                    &v,
+                    &at,
+                    Outcome1 {
+                        kind: Kind::Relation,
+                        expected: format!("{} — the outcome of {:?} ({})", show_out::<D>(&b.out), base, what),
+                        observed: show_out::<D>(&r.out),
+                    },
+                    true,
+                );
+                viol.detail = json!({"original": base, "rewrite": what});
+                cx.rec.add(viol);
+            }
+        }
+    }
+    cx.add_run(&st, json!({"engine": "E-FAM whitespace in bulk (runs of each White_Space character, mixed runs)", "evaluator": D::EV.name(), "stats": st.to_json()}));
+}
+
 pub fn c13(cx: &RunCtx) {
+    c13_ws_pumping::<F64>(cx);
+    c13_ws_pumping::<I64>(cx);
+    c13_ws_pumping::<Dec>(cx);
+    c13_ws_pumping::<Cpx>(cx);
+    c13_ws_pumping::<Num>(cx);
     cx.assume("metamorphic: both sides are real runs through the public API; no reference value is involved (the reference parser only supplies rewrite sites and their side conditions)");
     c13_dom::<F64>(cx);
     c13_dom::<I64>(cx);
